@@ -192,8 +192,8 @@ def check_formulas(part, chunks):
         try:
             sub = chemical_formula(els, subscript=True)
             plain = "".join(chr(ord("0") + ord(ch) - 0x2080) if 0x2080 <= ord(ch) <= 0x2089 else ch for ch in sub)
-            if plain != want:
-                part.fail("formula-subscript:%d" % len(zs), "chemical_formula(..., subscript=True) = %r, expected %r with subscript digits" % (sub, want), {"kind": "formula", "zs": list(zs)})
+            if plain != want or any(ch.isascii() and ch.isdigit() for ch in sub):
+                part.fail("formula-subscript:%d" % len(zs), "chemical_formula(..., subscript=True) = %r, expected %r with every count in subscript digits" % (sub, want), {"kind": "formula", "zs": list(zs)})
             syms = [ELEMENTS[z - 1][0] for z in zs]
             fs = chemical_formula(syms)
             cnt = {}
@@ -233,6 +233,11 @@ def run(ctx):
         if k <= 3:
             forms += [list(m)[::-1] for m in itertools.combinations_with_replacement(alphabet, k)]
     forms.append([6] * 10 + [1] * 22 + [8] * 5 + [7] * 3)
+    forms.append([6] * 120 + [1] * 104 + [7] * 8 + [17])
+    forms.append([8] * 11 + [6] * 12 + [1] * 22)
+    for cnt in (9, 10, 11, 99, 100, 101):
+        forms.append([6] * cnt + [1])
+        forms.append([26] * cnt)
     forms.append([((i * 7) % 103) + 1 for i in range(40)])
     jobs += [("formulas", c) for c in chunked(forms, 200)]
     nroutes = len(routes_for(1))
